@@ -256,6 +256,40 @@ Fixpoint par_run (c : Z) (sched : list nat) : Z * list (nat * Z) :=
       (c2, (g, v) :: seen)
   end.
 
+(* ---- how the readers release nodes ------------------------------------------------------------------ *)
+(* idr/xmlreader.go:168-192, idr/jsonreader.go:218-239, flatfile/hierarchyReader.go:49-54 and
+   123-131, edi/reader.go:209-213 and 271-277, fixedlength/reader.go:141-145 and 175-180:
+   a reader remembers the node it delivered last in a slot (sp.stream / r.target).  Read first
+   removes what is still in the slot and clears it, then delivers a newly built node (or
+   nothing) and stores it in the slot.  Release(n) clears the slot if it holds n, then removes n.
+   The ingester (extensions/omniv21/ingester.go:41-49) keeps the node of the last successful
+   Read in rawRecord.node and, before the next reader.Read, calls Release on it once.
+   A call sequence is any interleaving of "reader.Read delivering d" and "release the current
+   node, if there is one". *)
+Inductive rcall := CRead (d : option addr) | CRelease.
+Record rstate := mkR { r_slot : option addr; r_cur : option addr }.
+
+Definition reader_step (st : rstate) (c : rcall) : rstate * list addr :=   (* new state, removals *)
+  match c with
+  | CRead d =>
+      (mkR d d, match r_slot st with Some t => [t] | None => [] end)
+  | CRelease =>
+      match r_cur st with
+      | None => (st, [])
+      | Some n => (mkR (if oaddr_eqb (r_slot st) (Some n) then None else r_slot st) None, [n])
+      end
+  end.
+
+Fixpoint reader_run (st : rstate) (cs : list rcall) : rstate * list addr :=
+  match cs with
+  | [] => (st, [])
+  | c :: r => let '(st1, rm) := reader_step st c in
+              let '(st2, rms) := reader_run st1 r in (st2, rm ++ rms)
+  end.
+
+Definition deliveries (cs : list rcall) : list addr :=
+  flat_map (fun c => match c with CRead (Some d) => [d] | _ => [] end) cs.
+
 (* ---- the abstract side: ordered forests of addresses ----------------------------------------- *)
 Inductive atree := AT (a : addr) (kids : list atree).
 Definition forest := list atree.
